@@ -608,9 +608,11 @@ fn bid128_from_string_clear_status(str: &str, rnd_mode: RoundingMode, pfpsf: &mu
             RoundingMode::NearestAway => {
                 let digit = char::to_digit(buffer[i], 10).unwrap() as i32;
                 carry = (((4 - digit) as u32) >> 31) as BID_UINT64;
-                if dec_expon < 0
-                && buffer[i..ndigits_total.min(MAX_STRING_DIGITS_128)].iter().any(|c| *c as i32 > '0' as i32) {
-                    carry = 1;
+                if dec_expon < 0 {
+                    // the value is rounded (once) when it is packed: pass a sticky digit instead of rounding here;
+                    // at 34 or more places below the least quantum there is no room for one, and the 34 digits alone decide
+                    carry = if dec_expon > -(MAX_FORMAT_DIGITS_128 as i32)
+                            && buffer[i..ndigits_total.min(MAX_STRING_DIGITS_128)].iter().any(|c| *c as i32 > '0' as i32) { 1 } else { 0 };
                 }
             }
         }
